@@ -75,9 +75,11 @@ class World:
         self.files.setdefault(fname, {})[f"test_{self.counter}"] = {"payload": payload or self.new_payload(), "arg": None}
 
     def source(self, fname, args=None):
-        L = ["from inline_snapshot import snapshot, outsource, external", ""]
+        L = ["from inline_snapshot import snapshot, outsource, external", "", "", "def _boom(x):", "    raise RuntimeError('bug in the code under test')", ""]
         for name, t in self.files[fname].items():
             p, sfx = t["payload"]
+            if t.get("broken"):
+                p = f"_boom({p})"  # the test raises before its snapshot is evaluated
             call = f"outsource({p})" if sfx is None else f"outsource({p}, suffix={sfx!r})"
             L += [f"def {name}():", f"    assert {call} == snapshot({t['arg'] or ''})", ""]
         return "\n".join(L) + "\n"
@@ -122,6 +124,8 @@ def matches(ref, name):
 
 
 SCRIPTS = [
+    (12, [("none", "create"), ("break_test", "trim"), ("none", "none")]),
+    (12, [("none", "all"), ("break_test", "all"), ("none", "disable")]),
     (8, [("none", "create"), ("change_hash_length:16", "trim"), ("none", "none"), ("none", "disable")]),
     (12, [("none", "all"), ("shorten_reference", "trim"), ("none", "none")]),
     (12, [("none", "create,fix"), ("shorten_reference", "all"), ("change_hash_length:64", "trim"), ("none", "none")]),
@@ -148,7 +152,7 @@ def run_history(rng, args, out, C, hidx, script=None):
         proj.write({"pyproject.toml": "\n".join(pp) + "\n"})
         steps = []
         for step in range(len(script[1]) if script else rng.randint(4, 8)):
-            edit = rng.choice(["none", "change_data", "change_data", "add_test", "remove_test", "add_file", "equal_payloads", "change_hash_length", "shorten_reference"]) if step else "none"
+            edit = rng.choice(["none", "change_data", "change_data", "add_test", "remove_test", "add_file", "equal_payloads", "change_hash_length", "shorten_reference", "break_test"]) if step else "none"
             forced_len = None
             if script:
                 edit, forced_flag = script[1][step]
@@ -170,6 +174,11 @@ def run_history(rng, args, out, C, hidx, script=None):
             elif edit == "equal_payloads" and len(fnames) > 1:
                 src_t = rng.choice(list(w.files["test_a.py"].values()))
                 w.add_test("test_b.py", payload=src_t["payload"])
+            elif edit == "break_test" and w.files[f0]:
+                # a bug in the code under test: the test fails before its snapshot is reached (its file still takes part)
+                cands = [t for t in w.files[f0].values() if t["arg"] and t["arg"].startswith("external(")] or list(w.files[f0].values())
+                rng.choice(cands)["broken"] = True
+                C["broken_test_steps"] = C.get("broken_test_steps", 0) + 1
             elif edit == "change_hash_length":
                 hash_length = forced_len or rng.choice([x for x in (4, 8, 12, 16, 64, 80) if x != hash_length])
                 pp[1] = f"hash-length={hash_length}"
